@@ -362,8 +362,10 @@ class ExtraCoords(ExtraCoordsABC):
             n_dropped_dims = np.cumsum([isinstance(i, Integral) for i in item])
         for lut_axis, lut in self._lookup_tables:
             lut_axes = (lut_axis,) if not isinstance(lut_axis, tuple) else lut_axis
-            new_lut_axes = tuple(ax - n_dropped_dims[ax] for ax in lut_axes)
             lut_slice = tuple(item[i] for i in lut_axes)
+            # Axes of a multi-dimensional table that are indexed by an integer are dropped from it.
+            new_lut_axes = tuple(ax - n_dropped_dims[ax] for ax, axis_item in zip(lut_axes, lut_slice)
+                                 if not isinstance(axis_item, Integral))
             if isinstance(lut_slice, tuple) and len(lut_slice) == 1:
                 lut_slice = lut_slice[0]
 
